@@ -320,6 +320,10 @@ type caseT struct {
 	// Mapper: the call passes WithFieldNameMapper (partial mode only: there the reported paths are the JSON paths of
 	// the presence map, and the redactor is asked about those)
 	Mapper bool `json:",omitempty"`
+	// BOM: the request body sent through the app starts with a UTF-8 byte order mark. encoding/json refuses such a
+	// body, so today the bind fails and nothing is validated (the case is skipped); a binding layer that starts to
+	// tolerate the mark must still give partial validation over the body's presence
+	BOM bool `json:",omitempty"`
 }
 
 func customErrs(n int) [][2]string {
@@ -872,6 +876,9 @@ func genCase(r *hx.Rand, tier string) caseT {
 	}
 	if c.Mode == 0 && r.Chance(1, 6) {
 		c.Mapper = true
+	}
+	if c.ViaApp && r.Chance(1, 30) {
+		c.BOM = true
 	}
 	if !c.ViaApp && c.Variant == 0 && r.Chance(1, 8) {
 		c.Custom = r.Range(1, 7)
@@ -1604,7 +1611,11 @@ func observe(c *caseT, rt reflect.Type, secrets []string) (o obsT) {
 			if c.AppVia == 7 {
 				target = "/c05b"
 			}
-			req := httptest.NewRequest("PATCH", target, bytes.NewReader(body))
+			sent := body
+			if c.BOM {
+				sent = append([]byte("\xef\xbb\xbf"), body...)
+			}
+			req := httptest.NewRequest("PATCH", target, bytes.NewReader(sent))
 			req.Header.Set("Content-Type", []string{"application/json", "application/json; charset=utf-8", "application/merge-patch+json",
 				"Application/JSON", "application/merge-patch+json; charset=utf-8"}[len(c.Body)%5])
 			if c.AppVia == 5 {
@@ -2219,6 +2230,9 @@ func emit(id string, c caseT, st *hx.Stats) string {
 		if c.Mapper && c.Mode == 0 {
 			st.Count("partial_with_field_name_mapper")
 		}
+		if c.BOM {
+			st.Count("body_with_byte_order_mark_accepted_by_the_binder")
+		}
 		if c.Custom > 0 {
 			st.Count("custom_validator_" + []string{"", "accepts", "rejects", "rejects", "rejects", "rejects_by_value", "rejects_by_value", "rejects_by_value"}[c.Custom])
 		}
@@ -2387,6 +2401,7 @@ func fixedCases() []caseT {
 		{Body: `{"user":{"name":"xy"}}`, T: &TypeT{Fields: []FieldT{{JSON: "user", Kind: "struct", Sub: &TypeT{Fields: []FieldT{{JSON: "name", Kind: "string", Tag: "required,min=3"}}}}}}, Mode: 1, Auto: true, Interfere: 7}, // nested-only tags under Auto, after a call with a per-call schema
 		{Body: `{"user":{"name":"xy"},"a":"q"}`, T: userT, Mapper: true, Redact: []string{"a"}},                                                                                                                      // mapper + redactor in partial mode
 		{Body: `{"email":"x","age":9}`, Named: "FullA", Mode: 1, MaxErrors: 2, Custom: 7},                                                                                                                          // custom validator returning an Error value
+		{Body: `{"a":"q"}`, T: userT, ViaApp: true, BOM: true}, // a byte order mark in front of a PATCH body
 		{Body: `{"user":{"name":"xy"},"a":"q"}`, T: userT, Load: 1001},                       // 1001 other validations in flight on the same Validator
 		{Body: `{"email":"x","age":9,"nerr":1}`, Named: "FullV", Mode: 2, Load: 1001, Pkg: true},
 		{Body: `{"1":"abc","2":{"3":"x"}}`, T: &TypeT{Fields: []FieldT{{JSON: "1", Kind: "string", Tag: "email"}, {JSON: "2", Kind: "struct", Sub: &TypeT{Fields: []FieldT{{JSON: "3", Kind: "string", Tag: "min=2"}}}}}}}, // K05d
